@@ -32,6 +32,13 @@ type HoRound struct {
 	Approves     []int `json:"approves,omitempty"`
 	Claims       int   `json:"claims"`
 	Unlocks      int   `json:"unlocks"`
+	// ExitUnlocks: unlock requests aimed at the second validator, which holds exactly the threshold: the first one
+	// makes it exit, all of them mature after the (longer) exit delay
+	ExitUnlocks int `json:"exit_unlocks,omitempty"`
+	// StaleCancels: cancel requests for withdrawals that already reached an end (refunded at creation or cancelled):
+	// they must have no effect. StaleApprove > 0: a cancellation approval for such a withdrawal, which must fail.
+	StaleCancels []int `json:"stale_cancels,omitempty"`
+	StaleApprove int   `json:"stale_approve,omitempty"`
 	Shape        int   `json:"shape"` // see hoShapes
 	Mut          int   `json:"mut"`
 	Repeat       int   `json:"repeat"`
@@ -45,6 +52,8 @@ type HoCase struct {
 	Keys   []KeySpec  `json:"keys"`
 	Blocks []DepBlock `json:"blocks"`
 	Rounds []HoRound  `json:"rounds"`
+	// ExitMode: 0 = the default delays (unlock 20s, exit 60s); k > 0 = exit delay is the unlock delay plus k-1 seconds
+	ExitMode int `json:"exit_mode,omitempty"`
 }
 
 // ---- model ----
@@ -180,7 +189,12 @@ type hoWorld struct {
 	wdOrder  []uint64
 	nt       bool
 	prepares int
+	exitUnlocks int
+	ended        []uint64 // withdrawals that reached an end: refunded at creation or cancellation approved
+	staleCancels int
 }
+
+func hoExitValidator() world.Account { return world.NewAccount(world.DomValidator, 5) }
 
 func compareSys(got [][]byte, want []hoExp, where string) *Failure {
 	if len(got) != len(want) {
@@ -220,6 +234,7 @@ func (w *hoWorld) round(ri int, r HoRound, o *Outcome) *Failure {
 	// ---- relayer transactions of this round ----
 	var txs [][]byte
 	var onOK []func()
+	mustFail := map[int]string{} // tx index -> what it would mean if it succeeded (other than a bad hash batch)
 	bump := uint64(0)
 	if r.Hashes > 0 || r.HashStartOff != 0 {
 		start := m.tip + 1 + uint64(r.HashStartOff)
@@ -331,9 +346,20 @@ func (w *hoWorld) round(ri int, r HoRound, o *Outcome) *Failure {
 					k := fmt.Sprintf("rej:%d", id)
 					m.rejected = append(m.rejected, k)
 					m.owe("rejected", k)
+					w.ended = append(w.ended, id)
 				}
 			})
 		}
+	}
+	if r.StaleApprove > 0 && len(w.ended) > 0 && (len(txs) == 0 || onOK[len(onOK)-1] != nil) {
+		id := w.ended[(r.StaleApprove-1)%len(w.ended)]
+		raw, err := sim.Node.Tx(prop, bump, world.TxOpts{}, &bitcointypes.MsgApproveCancellation{Proposer: rv.Proposer, Id: []uint64{id}})
+		if err != nil {
+			return failf("fixture", "tx-build-failed", "%v", err)
+		}
+		txs = append(txs, raw)
+		onOK = append(onOK, nil)
+		mustFail[len(txs)-1] = fmt.Sprintf("cancellation of withdrawal %d, which was already refunded, approved again", id)
 	}
 	// ---- execution-layer requests ----
 	br := goattypes.BridgeRequests{}
@@ -347,7 +373,16 @@ func (w *hoWorld) round(ri int, r HoRound, o *Outcome) *Failure {
 			k := fmt.Sprintf("rej:%d", id)
 			m.rejected = append(m.rejected, k)
 			m.owe("rejected", k)
+			w.ended = append(w.ended, id)
 		})
+	}
+	for _, c := range r.StaleCancels {
+		if len(w.ended) == 0 {
+			break
+		}
+		// no effect: the withdrawal is not pending any more
+		br.Cancel1s = append(br.Cancel1s, &goattypes.Cancel1Request{Id: w.ended[abs(c)%len(w.ended)]})
+		w.staleCancels++
 	}
 	for i := 0; i < r.Withdraws; i++ {
 		id := w.nextWd
@@ -403,6 +438,20 @@ func (w *hoWorld) round(ri int, r HoRound, o *Outcome) *Failure {
 			m.owe("unlock", k)
 		})
 	}
+	exitDur := sim.Spec.LockingParams.ExitingDuration
+	for i := 0; i < r.ExitUnlocks; i++ {
+		id := w.nextID
+		w.nextID++
+		rcpt := common.BytesToAddress([]byte(fmt.Sprintf("rcpt-%d", id)))
+		lr.Unlocks = append(lr.Unlocks, &goattypes.UnlockRequest{Id: id, Validator: hoExitValidator().EthAddr(), Recipient: rcpt, Token: common.Address{}, Amount: big.NewInt(1000)})
+		reqOK = append(reqOK, func() {
+			m.unlockSeq++
+			k := fmt.Sprintf("unlock:%d:%x:1000", id, rcpt[:])
+			m.pendingUnlocks = append(m.pendingUnlocks, hoUnlock{key: k, maturity: blockTimeHolder.Add(exitDur), order: m.unlockSeq})
+			m.owe("unlock", k)
+			w.exitUnlocks++
+		})
+	}
 	plan.Requests = append(br.Encode(), lr.Encode()...)
 	if shape == 5 {
 		// a request that makes the execution-block message fail: lock for a validator that does not exist
@@ -415,7 +464,14 @@ func (w *hoWorld) round(ri int, r HoRound, o *Outcome) *Failure {
 		w.nt = true
 	}
 
-	blk := sim.Chain.NextBlock(time.Duration(r.DT)*time.Second, -1, nil, nil)
+	// the node under test is validator 0: it is the proposer of every round (a second validator may be in the set)
+	propIdx := -1
+	for i, v := range sim.Chain.Vals.Validators {
+		if bytes.Equal(v.Address, world.NewAccount(world.DomValidator, 0).Addr()) {
+			propIdx = i
+		}
+	}
+	blk := sim.Chain.NextBlock(time.Duration(r.DT)*time.Second, propIdx, nil, nil)
 	*blockTimeHolder = blk.Time
 	want := m.expected()
 	engine := sim.Node.Eng
@@ -578,6 +634,9 @@ func (w *hoWorld) round(ri int, r HoRound, o *Outcome) *Failure {
 	for i := range txs {
 		code := res.Resp.TxResults[off+i].Code
 		if onOK[i] == nil {
+			if code == 0 && mustFail[i] != "" {
+				return failf("never-duplicated", "ended-withdrawal-refunded-again", "round %d: %s", ri, mustFail[i])
+			}
 			if code == 0 {
 				return failf("gap-free-heights", "batch-not-starting-at-tip+1-accepted", "round %d: a block-hash batch starting %+d off the tip was accepted", ri, r.HashStartOff)
 			}
@@ -620,7 +679,11 @@ func (w *hoWorld) round(ri int, r HoRound, o *Outcome) *Failure {
 
 func runHoCase(c HoCase) Outcome {
 	o := Outcome{}
-	f, err := newDepFixture(c.Params, c.Keys, c.Blocks)
+	f, err := newDepFixtureWith(c.Params, c.Keys, c.Blocks, func(s *world.GenesisSpec) {
+		if c.ExitMode > 0 {
+			s.LockingParams.ExitingDuration = s.LockingParams.UnlockDuration + time.Duration(c.ExitMode-1)*time.Second
+		}
+	})
 	if err != nil {
 		if c.Params.Rate >= 10_000 {
 			o.Classes = append(o.Classes, "config-rejected-by-genesis")
@@ -630,6 +693,26 @@ func runHoCase(c HoCase) Outcome {
 		return o
 	}
 	defer func() { f.close() }()
+	anyExit := false
+	for _, r := range c.Rounds {
+		anyExit = anyExit || r.ExitUnlocks > 0
+	}
+	if anyExit {
+		// a second validator holding exactly the threshold (created and funded through execution-layer requests)
+		ev := hoExitValidator()
+		f.sim.RegisterKey(ev)
+		for _, lr := range []goattypes.LockingRequests{
+			{Creates: []*goattypes.CreateRequest{{Validator: ev.EthAddr(), Pubkey: ev.Uncompressed64()}}},
+			{Locks: []*goattypes.LockRequest{{Validator: ev.EthAddr(), Token: common.Address{}, Amount: world.Btc18.BigInt()}}},
+		} {
+			res, err := f.sim.Step(world.StepOpts{DT: 5 * time.Second, Proposer: -1, Eth: world.EthBlockOpts{Plan: world.BuildPlan{Requests: lr.Encode()}}})
+			if err != nil || res.Resp.TxResults[0].Code != 0 {
+				o.Fail = failf("fixture", "fixture-failed", "second validator: %v", err)
+				return o
+			}
+		}
+		o.Classes = append(o.Classes, fmt.Sprintf("exit-validator/extra=%d", c.ExitMode-1))
+	}
 	vf := &voteFixture{sim: f.sim, n: 2, btcKey: c.Keys[len(c.Keys)-1].key()}
 	w := &hoWorld{f: f, vf: vf, credited: map[int]bool{}, creditedKeys: map[string]bool{}, nextWd: 1, nextID: 1, wdStatus: map[uint64]string{},
 		m: &hoModel{delivered: map[string]int{}, owed: map[string]int{}, deliveredOrder: map[string][]string{}, owedOrder: map[string][]string{}, voted: map[uint64][]byte{}, tip: depTip}}
@@ -743,7 +826,23 @@ func genHoCase(t *rapid.T) HoCase {
 		if rapid.IntRange(0, 3).Draw(t, "unlockRoll") == 0 {
 			r.Unlocks = rapid.SampledFrom([]int{1, 3, 17, 22}).Draw(t, "unlocks")
 		}
+		if rapid.IntRange(0, 4).Draw(t, "staleCancelRoll") == 0 {
+			r.StaleCancels = []int{rapid.IntRange(0, 9).Draw(t, "staleCancel")}
+		}
+		if rapid.IntRange(0, 4).Draw(t, "staleApproveRoll") == 0 {
+			r.StaleApprove = rapid.IntRange(1, 10).Draw(t, "staleApprove")
+		}
 		c.Rounds = append(c.Rounds, r)
+	}
+	// half of the histories have a second validator that exits: its unlocks mature after the exit delay, which is
+	// chosen so that a later plain unlock can mature at exactly the same instant (delays differ by 0, 1, 3, 5, 8 or 40 s)
+	if rapid.Bool().Draw(t, "exitValidator") {
+		c.ExitMode = 1 + rapid.SampledFrom([]int{0, 1, 3, 5, 8, 40}).Draw(t, "exitExtra")
+		for i := range c.Rounds {
+			if rapid.IntRange(0, 3).Draw(t, "exitRoll") == 0 {
+				c.Rounds[i].ExitUnlocks = rapid.SampledFrom([]int{1, 1, 2, 5}).Draw(t, "exitUnlocks")
+			}
+		}
 	}
 	return c
 }
@@ -752,7 +851,7 @@ func TestC06_HandOver(t *testing.T) {
 	RunProp(t, Prop[HoCase]{
 		ID: "C06", Name: "handover", Quick: 480, Thor: 8000,
 		Gen: genHoCase, Run: runHoCase,
-		Rule: "histories of 4-24 rounds that fill every queue (voted hash batches of 1-16 hashes incl. batches not starting at tip+1, deposit batches of 1-12, refunds from undecodable addresses and approved cancellations, claims and unlock bursts above the caps) under six round shapes: real PrepareProposal+ProcessProposal+FinalizeBlock, harness-built honest proposal, proposals prepared 1-3 times but never finalised, proposals whose system section is mutated (drop, duplicate, swap, foreign tx in front, invented tx at the end; block hash and count byte kept consistent) which must be REJECTED and whose message must fail when force-finalised, blocks without an execution-block message, failing execution-block messages; restarts between blocks; oracle: per-kind FIFO model with caps (1 hash, 8 deposits, 8 paid+refund, 16 rewards, 16 unlocks) and per-module nonces, compared with the payload attributes the fake execution layer receives at every prepare and with the leading transactions of every finalised payload; after a drain every owed item was delivered exactly once in order; voted heights are gap-free and never rewritten; non-trivial = a queue exceeded its cap or a non-finalised/rejected/failed round happened with non-empty queues; evaluations count rounds",
+		Rule: "histories of 4-24 rounds that fill every queue (voted hash batches of 1-16 hashes incl. batches not starting at tip+1, deposit batches of 1-12, refunds from undecodable addresses and approved cancellations, cancel requests and approvals aimed at withdrawals that were already refunded (no effect / must fail), claims and unlock bursts above the caps, unlocks of a second validator that exits and whose exit delay makes them mature together with later plain unlocks) under six round shapes: real PrepareProposal+ProcessProposal+FinalizeBlock, harness-built honest proposal, proposals prepared 1-3 times but never finalised, proposals whose system section is mutated (drop, duplicate, swap, foreign tx in front, invented tx at the end; block hash and count byte kept consistent) which must be REJECTED and whose message must fail when force-finalised, blocks without an execution-block message, failing execution-block messages; restarts between blocks; oracle: per-kind FIFO model with caps (1 hash, 8 deposits, 8 paid+refund, 16 rewards, 16 unlocks) and per-module nonces, compared with the payload attributes the fake execution layer receives at every prepare and with the leading transactions of every finalised payload; after a drain every owed item was delivered exactly once in order; voted heights are gap-free and never rewritten; non-trivial = a queue exceeded its cap or a non-finalised/rejected/failed round happened with non-empty queues; evaluations count rounds",
 	})
 }
 
